@@ -80,7 +80,7 @@ def parseFuncLookup (j : Json) : Except String FuncLookup := do
   | _ => pure .notFound
 
 def parseComment (j : Json) : Except String Comment := do
-  pure { pos := ← getStr j "pos", text := ← getStr j "text" }
+  pure { pos := ← getStr j "pos", text := ← getStr j "text", off := ← getNat j "off" }
 
 def parseParamVar (j : Json) : Except String ParamVar := do
   pure { name := ← getStr j "name", ty := ← getNat j "ty", pos := ← getStr j "pos" }
@@ -94,7 +94,8 @@ def parseMethodDecl (j : Json) : Except String MethodDecl := do
 def parseScopeObj (j : Json) : Except String ScopeObj := do
   pure { name := ← getStr j "name", pos := ← getStr j "pos", isInterface := ← getBool j "isInterface",
          inSetupFile := ← getBool j "inSetupFile", docChain := ← natList j "docChain",
-         methods := ← (← getArr j "methods").toList.mapM parseMethodDecl }
+         methods := ← (← getArr j "methods").toList.mapM parseMethodDecl,
+         lbrace := ← getNat j "lbrace", rbrace := ← getNat j "rbrace" }
 
 def parseFile (j : Json) : Except String FileFacts := do
   let groups ← (← getArr j "groups").toList.mapM fun g => do
@@ -119,6 +120,8 @@ def parseFacts (j : Json) : Except String Facts := do
     | .str s => pure (bitRow s) | _ => throw "assignable: expected strings"
   let convertible ← (← getArr j "convertible").mapM fun v => match v with
     | .str s => pure (bitRow s) | _ => throw "convertible: expected strings"
+  let identical ← (← getArr j "identical").mapM fun v => match v with
+    | .str s => pure (bitRow s) | _ => throw "identical: expected strings"
   let lookups ← (← getArr j "lookups").toList.mapM fun l => do
     pure ((← getNat l "ty", ← getStr l "name"), ← parseLookup (← (l.getObjVal? "res")))
   let scopeNames ← (← getArr j "scopeNames").toList.mapM fun v => match v with
@@ -137,6 +140,7 @@ def parseFacts (j : Json) : Except String Facts := do
     tys := tys
     assignable := fun a b => (assignable.getD a #[]).getD b false
     convertible := fun a b => (convertible.getD a #[]).getD b false
+    identical := fun a b => (identical.getD a #[]).getD b false
     lookup := fun t n => ((lookups.find? (fun e => e.1 == (t, n))).map (·.2)).getD .none
     scopeHas := fun n => scopeNames.contains n
     pkgPath := ← getStr j "pkgPath"
@@ -165,7 +169,10 @@ def frontToJson (r : FrontResult) : Json :=
       Json.mkObj [("intf", n), ("funcs", Json.arr (fs.map fun (fname, text) =>
         Json.mkObj [("name", fname), ("text", text)]).toArray)]).toArray),
     ("groups", Json.arr (r.groups.map fun g => Json.arr (g.map fun c =>
-      Json.mkObj [("pos", c.pos), ("text", c.text)]).toArray).toArray)]
+      Json.mkObj [("pos", c.pos), ("text", c.text)]).toArray).toArray),
+    ("planted", Json.arr (r.planted.map fun g => Json.mkObj [("pos", g.pos), ("end", g.endp), ("empty", g.empty),
+      ("markers", Json.arr (g.markers.map fun (m : Nat) => (m : Json)).toArray)]).toArray),
+    ("markersSane", Json.bool (r.planted.all fun g => g.markers.length ≤ 1 && (g.markers.isEmpty || g.endp == g.pos + markerLen)))]
 
 def outcomeBoolJson : Outcome Bool → Json
   | .ok b => Json.str (if b then "true" else "false")
